@@ -242,6 +242,8 @@ static pthread_mutex_t g_mx = PTHREAD_MUTEX_INITIALIZER;
 static std::map<int, std::vector<std::string> > g_seen; // connection key -> requests handed to the application
 static bool g_tcpMode = false;
 
+static std::vector<long long> g_at; // srv: bytes unread at each dispatch
+
 struct RecServer : public HttpServer
 {
 	RecServer() : HttpServer(-1) {}
@@ -251,6 +253,9 @@ struct RecServer : public HttpServer
 		int key = g_tcpMode ? q.sender().port() : -1;
 		pthread_mutex_lock(&g_mx);
 		g_seen[key].push_back(rec);
+		// socketpair mode: the whole stream arrived before serve() started, so what is still unread now says where this
+		// request ended (HttpServer::serve ends the connection through closeBehind(), which hides where the loop stopped)
+		if (!g_tcpMode) g_at.push_back((long long)q.socket().available());
 		pthread_mutex_unlock(&g_mx);
 		r.put("ok");
 	}
@@ -425,6 +430,7 @@ static std::string step(const Toks& t)
 		Conn p(unhex(t[1]));
 		if (!p.ok) return "stream-too-big";
 		g_tcpMode = false;
+		g_at.clear();
 		std::string r;
 		{
 			Socket c(new Socket_(p.srv));
@@ -434,7 +440,9 @@ static std::string step(const Toks& t)
 			long long rest = p.drain();
 			c.close();
 			std::string out = p.finish();
-			r += " out=" + brep(out) + " rest=" + str(rest);
+			r += " out=" + brep(out) + " rest=" + str(rest) + " at=";
+			if (g_at.empty()) r += "-";
+			for (size_t i = 0; i < g_at.size(); i++) r += (i ? "," : "") + str(g_at[i]);
 		}
 		return r;
 	}
